@@ -4,6 +4,7 @@
    application; the expected rendering is ErrorRender!Render.
      P4:render-status   the response does not carry the error's own status
      P4:vary            Vary: Accept missing
+     P4:ownheaders      a header the error class derives from its constructor arguments is missing or has another value
      P4:negotiation     the body is not in the representation the client's preferences select
      P4:fields          the document does not have exactly the error's fields
      D:nobody D:ctype   model detail (what is sent when nothing is acceptable; content-type quirks) *)
@@ -19,7 +20,8 @@ TInit == /\ tid \in 1..Len(Traces) /\ st = "run"
 Verdict ==
     LET o == T.obs IN
     IF o.status # out.status THEN "P4:render-status"
-    ELSE IF ~o.vary THEN "P4:vary"
+    ELSE IF out.vary /\ ~o.vary THEN "P4:vary"
+    ELSE IF SetOf(o.own) # out.own THEN "P4:ownheaders"
     ELSE IF out.kind # "none" /\ o.kind # out.kind THEN "P4:negotiation"
     ELSE IF out.kind # "none" /\ ~o.flat /\ SetOf(o.fields) # out.fields THEN "P4:fields"
     ELSE IF out.kind = "none" /\ o.kind # "none" THEN "D:nobody"
